@@ -1,0 +1,33 @@
+//go:build verif
+
+package ssh
+
+// Contracts for property C36 (URL components are operands, never options) on
+// the ssh / scp argument vectors. Comment-only file, compiled only under the
+// "verif" build tag; "//@" lines are read by govc. Byte 45 = '-'.
+
+// opsafe(s): s, placed in argv as a word of its own (or at the start of one),
+// cannot be read as an option: it is non-empty and does not start with '-'.
+//@ pred opsafe(s) = len(s) >= 1 && s[0] != 45
+
+// validated(t): what URL validation has to guarantee about the components the
+// transport was built from (see url.(*URL).EnsureValid:nooption).
+//@ pred validated(t) = opsafe(t.host) && (t.user == "" || opsafe(t.user))
+
+//@ func NewTransport
+//@   ensures[fields] result1 == nil && unboxptr(result0, "sshTransport") != nil && unboxptr(result0, "sshTransport").user == user && unboxptr(result0, "sshTransport").host == host
+
+// ssh: the argument vector ends with <target> <command>; the target is exactly
+// host or user@host and, for validated components, cannot be an option.
+//@ func (*sshTransport).Command
+//@   requires t != nil && validated(t)
+//@   at call ssh.SSHCommand assert[target] len(arg1) >= 2 && arg1[len(arg1)-1] == command && arg1[len(arg1)-2] == (t.user == "" ? t.host : t.user + "@" + t.host)
+//@   at call ssh.SSHCommand assert[operand] len(arg1) >= 2 && opsafe(arg1[len(arg1)-2])
+
+// scp: the argument vector ends with <source> <destination>; the destination
+// is exactly [user@]host:remoteName and, for validated components, cannot be
+// an option.
+//@ func (*sshTransport).Copy
+//@   requires t != nil && validated(t)
+//@   at call ssh.SCPCommand assert[target] len(arg1) >= 2 && arg1[len(arg1)-1] == (t.user == "" ? t.host + ":" + remoteName : t.user + "@" + (t.host + ":" + remoteName))
+//@   at call ssh.SCPCommand assert[operand] len(arg1) >= 2 && opsafe(arg1[len(arg1)-1])
